@@ -436,9 +436,57 @@ def _ok_try(fn):
     return n
 
 
+_VIEW_CALLS = {
+    # the whole of an array / slice / Vec seen as a slice: one thing in every spelling
+    "<alloc::vec::Vec<T, A> as core::ops::DerefMut>::deref_mut": "alloc::vec::Vec::<T, A>::as_mut_slice",
+    "<alloc::vec::Vec<T, A> as core::ops::Deref>::deref": "alloc::vec::Vec::<T, A>::as_slice",
+}
+
+
+def _whole_views(fn):
+    """`&a[..]`, `a.as_slice()`, `a.as_mut_slice()` on an array or slice are the unsizing borrow `&a` / `&mut a` (no bounds are involved:
+    the full range never panics); `&mut *vec` through `DerefMut` is `vec.as_mut_slice()`"""
+    n = 0
+    blocks = fn["blocks"]
+    for b in blocks:
+        t = b["term"]
+        if t.get("t") != "call" or t.get("to") is None:
+            continue
+        r = _res(t)
+        if r in _VIEW_CALLS and len(t["args"]) == 1:
+            t["resolved"] = _VIEW_CALLS[r]
+            t["callee"] = _VIEW_CALLS[r]
+            n += 1
+            continue
+        full = r.split("::")[-1] in ("index", "index_mut") and len(t["args"]) == 2 and (t.get("gargs") or ["", ""])[-1] == "core::ops::RangeFull" \
+            and (r.startswith("core::array::<impl core::ops::Index") or r.startswith("core::slice::index::<impl core::ops::Index"))
+        whole = r in ("core::array::<impl [T; N]>::as_slice", "core::array::<impl [T; N]>::as_mut_slice") and len(t["args"]) == 1
+        if not (full or whole) or t["dest"]["p"]:
+            continue
+        a0 = t["args"][0]
+        if not _plain(a0):
+            continue
+        src_ty = a0["pl"].get("ty") or ""
+        dst_ty = t["dest"].get("ty") or ""
+        if src_ty == dst_ty:
+            rv = {"r": "use", "a": a0}
+        else:
+            rv = {"r": "cast", "kind": "PointerCoercion(Unsize, Implicit)", "a": a0, "to": dst_ty}
+        b["stmts"].append({"s": "assign", "lhs": dict(t["dest"]), "rv": rv, "sp": t["sp"]})
+        b["term"] = {"t": "goto", "to": t["to"]}
+        n += 1
+    return n
+
+
 def run(d):
     out = []
     for fn in d["fns"]:
+        try:
+            k = _whole_views(fn)
+        except Exception:
+            k = 0
+        if k:
+            out.append((fn["path"], "whole-slice view as the unsizing borrow", k))
         try:
             k = _fill_loops(fn)
         except Exception:
